@@ -551,7 +551,9 @@ func (db *DB) Fget(key, id, name string) Reply {
 	if o == nil {
 		return errReply("fget", e)
 	}
-	v, ok := o.Fields[name]
+	// names are stored without the white space around them; a reader that
+	// gives the padded name means the same field
+	v, ok := o.Fields[strings.TrimSpace(name)]
 	if !ok {
 		v = ZeroFVal
 	}
@@ -573,7 +575,7 @@ func (db *DB) Fexists(key, id, name string) Reply {
 	if o == nil {
 		return errReply("fexists", e)
 	}
-	_, ok := o.Fields[name]
+	_, ok := o.Fields[strings.TrimSpace(name)]
 	return Reply{RESP: t38.Int(b2i(ok)), JOK: true, J: map[string]any{"exists": ok}}
 }
 
@@ -939,8 +941,8 @@ func (db *DB) Jdel(key, id, path string) Reply {
 		}
 		o.Sem = normGeoSem(doc)
 		o.HasTTL = false
-		// the geometry path answers through SET: +OK rather than :1 (mirrors the implementation)
-		r := okReply(t38.Simple("OK"))
+		// the reply is JDEL's own (:1), although the geometry path goes through SET
+		r := okReply(t38.Int(1))
 		r.Mutated = true
 		return r
 	}
